@@ -78,7 +78,8 @@ let str_case ct g t =
   | "memchr" ->
       let s = next_zlist t in let ch = next_z t in let n = next_count t [len s] in
       let sp = memchr_s s (conv_char wide ch) (nat_of_int n) in
-      (pr ok_off (memchr_m ct s ch (nat_of_int n)), if n <= len s || sp <> None then ok_off sp else "na")
+      (* a count beyond the array is defined only for the narrow memchr (C11 7.24.5.1p2), not for wmemchr *)
+      (pr ok_off (memchr_m ct s ch (nat_of_int n)), if n <= len s || (sp <> None && not wide) then ok_off sp else "na")
   | "strspn" | "strcspn" ->
       let a = next_zlist t in let b = next_zlist t in
       let incl = (g = "strspn") in
@@ -134,7 +135,7 @@ let str_case ct g t =
        if n <= len s && n <= len d then ok_buf 0 (memcpy_s d s (nat_of_int n)) else "na")
   | "strcpy_null" | "strncpy_null" | "memmove_null" ->
       (* <which>: 1 = destination null, 2 = source null, 3 = both; the other argument is a small valid buffer.
-         Expected (reference leg of the harness): the documented precondition fails -> contract.  C: undefined -> spec na *)
+         Expected (reference leg of the harness and spec leg): the documented precondition fails -> contract.  ISO C: undefined *)
       let w = next_int t in
       let d = if w land 1 <> 0 then None else Some (List.map z_of_int [201; 202; 203]) in
       let src = if w land 2 <> 0 then None else Some (List.map z_of_int [97; 0]) in
@@ -142,9 +143,13 @@ let str_case ct g t =
       ((match g with
         | "strcpy_null" -> pr (ok_buf 0) (strcpy_front_m d src)
         | "strncpy_null" -> pr (ok_buf 0) (strncpy_front_m d src n)
-        | _ -> if wide then "na" else pr (ok_buf 0) (memmove_front_m false d src n)), "na")
-  | "strchr_null" -> let ch = next_z t in (pr ok_off (strchr_front_m None ch), "na")
-  | "strrchr_null" -> let ch = next_z t in (pr ok_off (strrchr_front_m ct None ch), "na")
+        | _ -> if wide then "na" else pr (ok_buf 0) (memmove_front_m false d src n)),
+       (* spec leg: the library's documented entry contract (Spec.precondition_violated), not ISO C *)
+       if precondition_violated [d = None; src = None] then "contract" else "na")
+  | "strchr_null" ->
+      let ch = next_z t in
+      (pr ok_off (strchr_front_m None ch), if precondition_violated [true] then "contract" else "na")
+  | "strrchr_null" -> let ch = next_z t in (pr ok_off (strrchr_front_m ct None ch), ok_off strrchr_null_s)
   | _ -> raise Not_found
 
 let pow2 k = z_of_big (Big.shift_left Big.one k)
